@@ -220,13 +220,14 @@ class Recorded(Expansion):
     role = "exhibits recorded findings"
 
     def bound(self, tier):
-        return "4 fixed inputs"
+        return "5 fixed inputs"
 
     def inputs(self, tier, seed):
         yield {"defs": ["#define X a b", "#define F(a) a ## 1", "#define G(a, b) F(b)"], "inv": "G(1, X)", "kl": "argument-token-named-like-a-parameter"}
         yield {"defs": ["#define F(a) G(a)", "#define G(a, b) a ## b"], "inv": "G(, G(F(1), G(2, 3)))", "kl": None}
         yield {"defs": ["#define F(a) G(a)", "#define G(a, b) #a #b"], "inv": "G(F(2), X)", "kl": None}
         yield {"defs": ["#define F(a) a ## 1", "#define G(a, b) #a #b"], "inv": "G(F(  p  q  ), X)", "kl": None}
+        yield {"defs": ["#define S(...) #__VA_ARGS__"], "inv": "S(1 , 2)", "kl": "stringified-variadic-arguments-lose-the-blank-before-a-comma"}
 
     def check(self, inp):
         r = super().check(inp)
